@@ -1,5 +1,5 @@
 SPECIFICATION Spec
-CONSTANT MaxLen = 4
+CONSTANT MaxLen = 3
 CONSTANT Alpha = "mixed"
 INVARIANT WellFormed
 INVARIANT Forward
